@@ -2747,12 +2747,15 @@ class PGPKeyring(collections_abc.Container, collections_abc.Iterable, collection
 
         # this is an alias that already exists, but points to a key that is not already referenced by it
         else:
-            adepth = len(self._aliases) - len([None for m in self._aliases if alias in m]) - 1
+            # use a level that does not hold this alias yet (after a re-sort the existing entries occupy the
+            # leftmost levels, so counting from the right could land on an occupied one and overwrite it)
+            free = [depth for depth, m in enumerate(self._aliases) if alias not in m]
             # all alias maps have this alias, so increase total depth by 1
-            if adepth == -1:
+            if not free:
                 self._aliases.appendleft({})
-                adepth = 0
+                free = [0]
 
+            adepth = free[-1]
             self._aliases[adepth][alias] = pkid
             self._sort_alias(alias)
 
